@@ -917,13 +917,83 @@ def gen_builders(mods):
                         unknown.append("%s: %s" % (where, ast.unparse(st)[:60]))
                         continue
                     stores.append((where, a, b, const_int(v.right)))
+    # ---- tables used in both directions by the same class, and the size of the buffer they are encoded into
+    enum_maps = {}
+    for m in mods:
+        if m.stem == "scsi_enum_modesense":
+            for n in m.tree.body:
+                if isinstance(n, ast.Assign) and isinstance(n.targets[0], ast.Name) and isinstance(n.value, ast.Dict) \
+                        and n.targets[0].id in ("modepage6bits", "modepage10bits"):
+                    enum_maps["MODESENSE6" if n.targets[0].id == "modepage6bits" else "MODESENSE10"] = {
+                        k.value: "scsi_enum_modesense.%s" % v.id for k, v in zip(n.value.keys, n.value.values) if isinstance(v, ast.Name)}
+
+    def table_of(node, clsqual):
+        if isinstance(node, ast.Attribute) and isinstance(node.value, ast.Name) and node.value.id == "cls":
+            return "%s.%s" % (clsqual, node.attr)
+        if isinstance(node, ast.Attribute) and isinstance(node.value, ast.Attribute) and isinstance(node.value.value, ast.Name) \
+                and node.value.value.id == "cls" and node.value.attr in enum_maps:
+            return enum_maps[node.value.attr].get(node.attr)
+        return None
+
+    enc_sites, dec_sites = [], []
+    for mod in mods:
+        if not mod.stem.startswith("scsi_cdb_"):
+            continue
+        for cls in [n for n in mod.tree.body if isinstance(n, ast.ClassDef)]:
+            clsqual = "%s.%s" % (mod.stem, cls.name)
+            for fn in [f for f in cls.body if isinstance(f, ast.FunctionDef)]:
+                if fn.name.startswith("unmarshall"):
+                    for node in ast.walk(fn):
+                        if isinstance(node, ast.Call) and dotted(node.func) in ("decode_bits", "convert.decode_bits") and len(node.args) == 3:
+                            t = table_of(node.args[1], clsqual)
+                            if t:
+                                dec_sites.append((clsqual, t))
+                if fn.name.startswith("marshall"):
+                    def walk(stmts, lens):
+                        for st in stmts:
+                            if isinstance(st, ast.Assign) and len(st.targets) == 1 and isinstance(st.targets[0], ast.Name):
+                                v = st.value
+                                if isinstance(v, ast.Call) and dotted(v.func) == "bytearray" and len(v.args) == 1 and const_int(v.args[0]) is not None:
+                                    lens[st.targets[0].id] = const_int(v.args[0])
+                                elif isinstance(v, ast.Call) and dotted(v.func) == "bytearray" and len(v.args) == 1 and isinstance(v.args[0], ast.BinOp) \
+                                        and isinstance(v.args[0].op, ast.Add) and const_int(v.args[0].left) is not None:
+                                    lens[st.targets[0].id] = const_int(v.args[0].left)      # bytearray(c + <non-negative>): at least c bytes
+                                else:
+                                    lens[st.targets[0].id] = None
+                            elif isinstance(st, ast.AugAssign) and isinstance(st.target, ast.Name) and isinstance(st.op, ast.Add):
+                                v = st.value
+                                cur = lens.get(st.target.id)
+                                if cur is not None and isinstance(v, ast.Call) and dotted(v.func) == "bytearray" and len(v.args) == 1 and const_int(v.args[0]) is not None:
+                                    lens[st.target.id] = cur + const_int(v.args[0])
+                                else:
+                                    lens[st.target.id] = None
+                            elif isinstance(st, ast.Expr) and isinstance(st.value, ast.Call) and dotted(st.value.func) in ("encode_dict", "convert.encode_dict") \
+                                    and len(st.value.args) == 3 and isinstance(st.value.args[2], ast.Name):
+                                t = table_of(st.value.args[1], clsqual)
+                                if t:
+                                    enc_sites.append((clsqual, t, lens.get(st.value.args[2].id)))
+                            for sub in ("body", "orelse"):
+                                if hasattr(st, sub) and isinstance(getattr(st, sub), list) and not isinstance(st, ast.FunctionDef):
+                                    walk(getattr(st, sub), dict(lens))       # a branch does not change what the code after it sees
+                    walk(fn.body, {})
+    decs = set(dec_sites)
+    paired, unsized = [], []
+    for (c, t, n) in enc_sites:
+        if (c, t) in decs:
+            if n is None:
+                unsized.append("%s %s" % (c, t))
+            elif (t, n) not in paired:
+                paired.append((t, n))
     lines = [HEADER.format(src="the marshall* functions of scsi_cdb_*.py (length-field stores) and _pad4_len", extra="")]
+    lines.append("(* tables a class both encodes (into a buffer of the given size) and decodes *)")
+    lines.append("Definition paired_tables : list (string * nat) := [\n  %s].\n" % ";\n  ".join("(%s, %d%%nat)" % (coq_str(t), n) for t, n in paired))
+    lines.append("Definition unsized_pairs : list string := [%s].\n" % "; ".join(coq_str(u) for u in sorted(set(unsized))))
     lines.append("(* builder, first byte of the field, one past its last byte, c:  the field is set to len(buffer) - c *)")
     lines.append("Definition length_stores : list (string * (nat * nat * nat)) := [\n  %s].\n" % ";\n  ".join(
         "(%s, (%d%%nat, %d%%nat, %d%%nat))" % (coq_str(w), a, b, c) for w, a, b, c in sorted(set(stores))))
     lines.append("Definition pad4_len (n : N) : N := %s.\n" % (pad or "0"))
     lines.append("Definition unknown_builders : list string := [%s].\n" % "; ".join(coq_str(u) for u in unknown + ([] if pad else ["_pad4_len"])))
-    return "\n".join(lines), dict(stores=sorted(set(stores)), pad=pad, unknown=unknown)
+    return "\n".join(lines), dict(stores=sorted(set(stores)), pad=pad, unknown=unknown, paired=paired, unsized=sorted(set(unsized)))
 
 
 def gen_footprint(mods):
